@@ -178,6 +178,14 @@ func c03OutOfOrder() *Scenario {
 	return s
 }
 
+// c03DecidedThenGov: an order that already carries one accept and one reject when governance changes the
+// signer set or the threshold - the old decisions are counted against the new parameters.
+func c03DecidedThenGov() *Scenario {
+	s := c03Scenario("po-decided-then-gov", []string{"S1", "S2", "S3"}, 2, true)
+	s.Prefix = []string{"raise(P1,7)", "accept(S1,#1)", "reject(S2,#1)"}
+	return s
+}
+
 func init() {
 	Checks["C03"] = func() *Check {
 		return &Check{
@@ -198,6 +206,10 @@ func init() {
 				{S: c03OutOfOrder(), Opt: map[Tier]Options{
 					Quick:    {Depth: 4, Budget: 60 * time.Second, ReplayEvery: 8},
 					Thorough: {Depth: 6, Budget: 5 * time.Minute, ReplayEvery: 16, MaxStates: 300000},
+				}},
+				{S: c03DecidedThenGov(), Opt: map[Tier]Options{
+					Quick:    {Depth: 3, Budget: 60 * time.Second, ReplayEvery: 8},
+					Thorough: {Depth: 5, Budget: 5 * time.Minute, ReplayEvery: 16, MaxStates: 300000},
 				}},
 			},
 			Owns:        c03Owns,
